@@ -54,14 +54,68 @@ UNDECIDED = ["rendered geometry and tick values (matplotlib output)"]
 ASSUMPTIONS = ["os.listdir order is arbitrary; sorted() without key is lexicographic on file names"]
 
 
+def _format_as_fstring(fi, call):
+    """``TEMPLATE.format(number=n)`` / ``"frame_{:02d}.png".format(n)`` with a
+    constant template -> the equivalent f-string node, or None."""
+    import string
+
+    if not (isinstance(call, ast.Call) and isinstance(call.func, ast.Attribute) and call.func.attr == "format"):
+        return None
+    tmpl = _const_str(fi, call.func.value)
+    if tmpl is None:
+        return None
+    kw = {k.arg: k.value for k in call.keywords if k.arg}
+    values, auto = [], 0
+    try:
+        pieces = list(string.Formatter().parse(tmpl))
+    except ValueError:
+        return None
+    for lit, field, spec, conv in pieces:
+        if lit:
+            values.append(ast.Constant(value=lit))
+        if field is None:
+            continue
+        if conv or (spec and "{" in spec):
+            return None
+        if field == "":
+            if auto >= len(call.args):
+                return None
+            v, auto = call.args[auto], auto + 1
+        elif field.isdigit():
+            if int(field) >= len(call.args):
+                return None
+            v = call.args[int(field)]
+        elif field in kw:
+            v = kw[field]
+        else:
+            return None
+        values.append(ast.FormattedValue(value=v, conversion=-1, format_spec=ast.JoinedStr(values=[ast.Constant(value=spec)]) if spec else None))
+    js = ast.JoinedStr(values=values)
+    return ast.copy_location(js, call)
+
+
 def _writer_fstrings(ctx, save):
     """The f-strings that make up the file name handed to savefig (a private
-    one-expression path helper is expanded)."""
+    one-expression path helper is expanded; ``str.format`` on a constant
+    template counts as the f-string it abbreviates)."""
     out = []
     for n in own_nodes(save.node):
         if isinstance(n, ast.Call) and isinstance(n.func, ast.Attribute) and n.func.attr == "savefig" and n.args:
             x = ctx.norm.xexpr(save, n.args[0])
             out += [j for j in ast.walk(x) if isinstance(j, ast.JoinedStr)]
+            for c in ast.walk(x):
+                j = _format_as_fstring(save, c)
+                if j is not None:
+                    out.append(j)
+            # the name may be built in a local first:  name = T.format(...); savefig(join(dir, name))
+            for y in ast.walk(x):
+                if isinstance(y, ast.Name):
+                    for k_, v_, _s in ctx.flow.defs(save).of(y.id):
+                        if k_ == "value" and v_ is not None:
+                            out += [j for j in ast.walk(v_) if isinstance(j, ast.JoinedStr)]
+                            j = _format_as_fstring(save, v_)
+                            if j is not None:
+                                out.append(j)
     if not out:
         out = [j for j in own_nodes(save.node) if isinstance(j, ast.JoinedStr)]
     return out
@@ -102,6 +156,25 @@ def _const_str(fi, e):
                 return _const_str(fi, st.value)
     if isinstance(e, ast.Call) and (dotted(e.func) or "") in ("re.compile",) and e.args:
         return _const_str(fi, e.args[0])
+    if isinstance(e, ast.BinOp) and isinstance(e.op, ast.Add):
+        # <variable prefix> + "constant rest": the writer's names are compared
+        # without the same variable prefix (see _writer_names), so the
+        # parameter part counts as empty
+        def part(x):
+            if isinstance(x, ast.Call) and (dotted(x.func) or "") == "re.escape" and x.args and isinstance(x.args[0], ast.Name) and x.args[0].id in fi.params:
+                return ""
+            if isinstance(x, ast.Name) and x.id in fi.params:
+                return ""
+            return _const_str(fi, x)
+
+        l, r = part(e.left), part(e.right)
+        if l is not None and r is not None:
+            return l + r
+    if isinstance(e, ast.Name) and not isinstance(fi.node, ast.Lambda):
+        # a local bound once to such an expression
+        ds = [n for n in own_nodes(fi.node) if isinstance(n, ast.Assign) and any(isinstance(t, ast.Name) and t.id == e.id for t in n.targets)]
+        if len(ds) == 1 and ds[0].value is not e:
+            return _const_str(fi, ds[0].value)
     if isinstance(e, ast.Call) and (dotted(e.func) or "") in ("os.path.join",) and e.args:
         return _const_str(fi, e.args[-1])
     return None
@@ -390,7 +463,33 @@ def run(ctx):
     else:
         s = sorts[0]
         key = next((k.value for k in s.keywords if k.arg == "key"), None)
-        if key is None:
+
+        def numbered_tuples(e, depth=0):
+            """what is sorted are (frame number, name) tuples: a keyless sort is numeric"""
+            if depth > 4 or e is None:
+                return False
+            if isinstance(e, ast.Name):
+                return any(k_ == "value" and numbered_tuples(v_, depth + 1) for k_, v_, _s in ctx.flow.defs(load).of(e.id))
+            if isinstance(e, (ast.GeneratorExp, ast.ListComp)):
+                elt = e.elt
+                if isinstance(elt, ast.Name) and len(e.generators) == 1 and isinstance(e.generators[0].target, ast.Name) and e.generators[0].target.id == elt.id:
+                    return numbered_tuples(e.generators[0].iter, depth + 1)
+                if isinstance(elt, ast.Tuple) and elt.elts:
+                    first = elt.elts[0]
+                    if isinstance(first, ast.Call) and isinstance(first.func, ast.Name):
+                        if first.func.id in ("int", "float"):
+                            return True
+                        h = load.module.functions.get(first.func.id)
+                        if h is not None:
+                            return any(isinstance(n, ast.Call) and isinstance(n.func, ast.Name) and n.func.id == "int" for n in own_nodes(h.node))
+                return False
+            if isinstance(e, ast.Call) and isinstance(e.func, ast.Name) and e.func.id in ("list", "tuple", "iter") and e.args:
+                return numbered_tuples(e.args[0], depth + 1)
+            return False
+
+        if key is None and isinstance(s.func, ast.Name) and s.args and numbered_tuples(s.args[0]):
+            chk.ok("R20.a", load.qualname, load.loc(s), "frames sorted as (numeric index, name) tuples")
+        elif key is None:
             bound = f"10**{width}" if width else "10"
             chk.violation(
                 "R20.a", load, s,
@@ -724,6 +823,22 @@ def run(ctx):
             iv, rec = lp.target.elts[0].id, lp.target.elts[1].id
         hist_text = ast.unparse(hist)
         reord = list(reorder_ops(hist)) or (isinstance(hist, ast.Subscript) and isinstance(hist.slice, ast.Slice))
+        if not reord and isinstance(hist, ast.Name):
+            # ... or the history was re-ordered on the way to the loop
+            # (`history = sorted(history, key=...)`): a dispatch history is a
+            # sequence in its own right - any sort other than the identity
+            # replays another history.  (A sort in place counts as well.)
+            for kind_, value_, _st in ctx.flow.defs(frames).of(hist.id):
+                if kind_ == "value" and value_ is not None:
+                    for node_, what_ in reorder_ops(value_):
+                        args_ = getattr(node_, "args", [])
+                        if args_ and isinstance(args_[0], ast.Name) and args_[0].id == hist.id:
+                            reord = [(node_, what_)]
+                            hist_text = ast.unparse(value_)[:80]
+            for x_ in own_nodes(frames.node):
+                if isinstance(x_, ast.Call) and isinstance(x_.func, ast.Attribute) and x_.func.attr in ("sort", "reverse") and isinstance(x_.func.value, ast.Name) and x_.func.value.id == hist.id:
+                    reord = reord or [(x_, f".{x_.func.attr}()")]
+                    hist_text = ast.unparse(x_)[:80]
         if reord:
             okc = False
             chk.violation("R20.c", frames_raw, lp.iter, f"frames are produced over `{hist_text}`, not over the recorded history in order", loc=frames.loc(lp))
@@ -757,9 +872,23 @@ def run(ctx):
                     chk.violation("R20.c", frames_raw, disp[0], f"frame {iv} does not dispatch ({rec}.operation, {rec}.machine_id) of the k-th record", loc=frames.loc(disp[0]))
                 # saved under its own index: the file name's formatted number is the loop index
                 name_arg = ctx.norm.xexpr(frames, svf[0].args[0]) if svf[0].args else None
-                idx_ok = name_arg is not None and any(
+                fstrs = [j_ for j_ in ast.walk(name_arg) if isinstance(j_, ast.JoinedStr)] if name_arg is not None else []
+                if name_arg is not None:
+                    # str.format on a constant template / a name built in a local first
+                    for c_ in ast.walk(name_arg):
+                        j_ = _format_as_fstring(frames, c_)
+                        if j_ is not None:
+                            fstrs.append(j_)
+                        if isinstance(c_, ast.Name):
+                            for k_, v_, _s in ctx.flow.defs(frames).of(c_.id):
+                                if k_ == "value" and v_ is not None:
+                                    fstrs += [y for y in ast.walk(v_) if isinstance(y, ast.JoinedStr)]
+                                    j2 = _format_as_fstring(frames, v_)
+                                    if j2 is not None:
+                                        fstrs.append(j2)
+                idx_ok = any(
                     isinstance(v, ast.FormattedValue) and isinstance(v.value, ast.Name) and ctx.norm.xtext(frames, v.value) == iv
-                    for j_ in ast.walk(name_arg) if isinstance(j_, ast.JoinedStr) for v in j_.values
+                    for j_ in fstrs for v in j_.values
                 )
                 if not idx_ok:
                     okc = False
